@@ -438,3 +438,434 @@ func unstar(e ast.Expr) ast.Expr {
 	}
 	return e
 }
+
+// ---------------------------------------------------------------------------------------------
+// IdentityCtx: the byte strings by which keys, key files, key rings and token records are bound to a
+// client identity (used by the C02 models of the v1 key context, the v2 key-ring contexts, the
+// token-record ids and the search hash).
+func init() { generators = append(generators, genIdentityCtx) }
+
+func bytesOf(s string) string {
+	xs := make([]uint64, len(s))
+	for i := 0; i < len(s); i++ {
+		xs[i] = uint64(s[i])
+	}
+	return natList(xs)
+}
+
+// stringLits returns the string literals inside a node, in source order, unquoted.
+func stringLits(n ast.Node) []string {
+	var out []string
+	ast.Inspect(n, func(x ast.Node) bool {
+		if b, ok := x.(*ast.BasicLit); ok && b.Kind == token.STRING {
+			s := b.Value
+			if len(s) >= 2 {
+				if s[0] == '`' {
+					out = append(out, s[1:len(s)-1])
+				} else if u, err := strconvUnquote(s); err == nil {
+					out = append(out, u)
+				}
+			}
+		}
+		return true
+	})
+	return out
+}
+
+func strconvUnquote(s string) (string, error) {
+	var out string
+	_, err := fmt.Sscanf(s, "%q", &out)
+	return out, err
+}
+
+// sprintfSuffix: the function must be `return fmt.Sprintf("%s<suffix>", id)`; returns the suffix.
+func sprintfSuffix(rel, fn string) string {
+	fd := funcDecl(rel, "", fn)
+	if fd == nil {
+		return ""
+	}
+	lits := stringLits(fd.Body)
+	names, _ := callsIn(fd.Body)
+	if len(lits) != 1 || len(names) < 1 || names[0] != "fmt.Sprintf" || !strings.HasPrefix(lits[0], "%s") || strings.Contains(lits[0][2:], "%") {
+		fail("%s: %s is no longer `fmt.Sprintf(\"%%s<suffix>\", id)`", rel, fn)
+		return ""
+	}
+	return lits[0][2:]
+}
+
+// appendParts: a function that builds a byte string by `c = append(c, X...)` steps; returns the parts in
+// order: string literals as bytes, anything else as "<selector path>".
+func appendParts(fd *ast.FuncDecl, rel string) (lits []string, shape []string) {
+	for _, st := range fd.Body.List {
+		a, ok := st.(*ast.AssignStmt)
+		if !ok || len(a.Rhs) != 1 {
+			continue
+		}
+		c, ok := a.Rhs[0].(*ast.CallExpr)
+		if !ok || selPath(c.Fun) != "append" || len(c.Args) != 2 || !c.Ellipsis.IsValid() {
+			continue
+		}
+		if b, ok := c.Args[1].(*ast.BasicLit); ok && b.Kind == token.STRING {
+			s, _ := strconvUnquote(b.Value)
+			lits = append(lits, s)
+			shape = append(shape, "lit")
+		} else {
+			shape = append(shape, "<"+selPath(c.Args[1])+">")
+		}
+	}
+	if len(shape) == 0 {
+		fail("%s: %s: no append(c, …...) steps found", rel, fd.Name.Name)
+	}
+	return
+}
+
+// describe renders an expression: string literals (also inside []byte(…) conversions) as `lit:<text>`,
+// selector chains as paths, calls as f(args).
+func describe(e ast.Expr) string {
+	switch t := e.(type) {
+	case *ast.BasicLit:
+		if t.Kind == token.STRING {
+			if l := stringLits(t); len(l) == 1 {
+				return "lit:" + l[0]
+			}
+		}
+		return t.Value
+	case *ast.CallExpr:
+		if _, conv := t.Fun.(*ast.ArrayType); conv && len(t.Args) == 1 {
+			return describe(t.Args[0])
+		}
+		as := make([]string, len(t.Args))
+		for i, a := range t.Args {
+			as[i] = describe(a)
+		}
+		return selPath(t.Fun) + "(" + strings.Join(as, ",") + ")"
+	}
+	return selPath(e)
+}
+
+// hashWrites: the arguments of the `h.Write(…)` calls of a function in source order.
+func hashWrites(fd *ast.FuncDecl) []string {
+	var out []string
+	names, calls := callsIn(fd.Body)
+	for i, n := range names {
+		if n == "h.Write" && len(calls[i].Args) == 1 {
+			out = append(out, describe(calls[i].Args[0]))
+		}
+	}
+	return out
+}
+
+// evalInt evaluates an integer constant expression with Go's integer division.
+func evalInt(e ast.Expr, iota int) (int64, bool) {
+	switch t := e.(type) {
+	case *ast.BasicLit:
+		var v int64
+		if t.Kind == token.INT {
+			if _, err := fmt.Sscanf(t.Value, "%v", &v); err == nil {
+				return v, true
+			}
+		}
+	case *ast.Ident:
+		if t.Name == "iota" {
+			return int64(iota), true
+		}
+	case *ast.ParenExpr:
+		return evalInt(t.X, iota)
+	case *ast.BinaryExpr:
+		x, ok1 := evalInt(t.X, iota)
+		y, ok2 := evalInt(t.Y, iota)
+		if ok1 && ok2 {
+			switch t.Op {
+			case token.ADD:
+				return x + y, true
+			case token.SUB:
+				return x - y, true
+			case token.MUL:
+				return x * y, true
+			case token.QUO:
+				if y != 0 {
+					return x / y, true
+				}
+			}
+		}
+	}
+	return 0, false
+}
+
+func genIdentityCtx() {
+	lf := newLean("IdentityCtx", "Sources: keystore/keystore.go, keystore/filesystem/{filenames,key_names}.go, keystore/v2/keystore/{storage,storage_client,hmac}.go, keystore/v2/keystore/filesystem/{keyRing,key,keyStore,keyStoreLoad}.go, keystore/v2/keystore/crypto/signature.go, pseudonymization/tokenizer.go, pseudonymization/common/common.go, hmac/hash.go. Byte strings are lists of byte values.")
+	str := func(name, val, src string) {
+		lf.def(name, "List Nat", bytesOf(val), fmt.Sprintf("%s: %q", src, val))
+	}
+	// ---- v1: file names ----
+	const fnRel = "keystore/filesystem/filenames.go"
+	str("v1StorageSuffix", sprintfSuffix(fnRel, "GetServerDecryptionKeyFilename"), fnRel+": GetServerDecryptionKeyFilename = id ++")
+	str("v1HmacSuffix", sprintfSuffix(fnRel, "getHmacKeyFilename"), fnRel+": getHmacKeyFilename = id ++")
+	str("v1PublicSuffix", sprintfSuffix(fnRel, "getPublicKeyFilename"), fnRel+": getPublicKeyFilename = name ++")
+	const knRel = "keystore/filesystem/key_names.go"
+	if fd := funcDecl(knRel, "", "getSymmetricKeyName"); fd != nil {
+		l := stringLits(fd.Body)
+		ok := false
+		if len(l) == 1 && len(fd.Body.List) == 1 {
+			if r, isRet := fd.Body.List[0].(*ast.ReturnStmt); isRet && len(r.Results) == 1 {
+				if be, isBin := r.Results[0].(*ast.BinaryExpr); isBin && be.Op == token.ADD && isIdent(be.X, "id") {
+					ok = true
+				}
+			}
+		}
+		if !ok {
+			fail("%s: getSymmetricKeyName is no longer `id + \"<suffix>\"`", knRel)
+		} else {
+			str("v1SymSuffix", l[0], knRel+": getSymmetricKeyName = name ++")
+		}
+	}
+	if fd := funcDecl(knRel, "", "getClientIDSymmetricKeyName"); fd != nil {
+		names, _ := callsIn(fd.Body)
+		lf.def("v1ClientSymNameCalls", "List String", strList(names), knRel+": getClientIDSymmetricKeyName – calls in source order (outermost first)")
+	}
+	// ---- v1: the bytes of a KeyContext ----
+	const ksRel = "keystore/keystore.go"
+	if fd := funcDecl(ksRel, "", "GetKeyContextFromContext"); fd != nil {
+		var order []string
+		for _, st := range fd.Body.List {
+			switch t := st.(type) {
+			case *ast.IfStmt:
+				be, ok := t.Cond.(*ast.BinaryExpr)
+				if !ok || be.Op != token.NEQ || !isIdent(be.Y, "nil") || len(t.Body.List) != 1 {
+					fail("%s: GetKeyContextFromContext: unexpected if shape", ksRel)
+					continue
+				}
+				r, ok := t.Body.List[0].(*ast.ReturnStmt)
+				if !ok || len(r.Results) != 1 || selPath(r.Results[0]) != selPath(be.X) {
+					fail("%s: GetKeyContextFromContext: a branch does not return the field it tests", ksRel)
+					continue
+				}
+				order = append(order, strings.TrimPrefix(selPath(be.X), "keyContext."))
+			case *ast.ReturnStmt:
+				if len(t.Results) == 1 && isIdent(t.Results[0], "nil") {
+					order = append(order, "nil")
+				} else {
+					fail("%s: GetKeyContextFromContext: unexpected final return", ksRel)
+				}
+			default:
+				fail("%s: GetKeyContextFromContext: unexpected statement", ksRel)
+			}
+		}
+		lf.def("v1KeyContextOrder", "List String", strList(order), ksRel+": GetKeyContextFromContext returns the first non-nil of these fields (the purpose is not among them)")
+	}
+	for _, m := range []string{"Encrypt", "Decrypt"} {
+		if fd := funcDecl(ksRel, "SCellKeyEncryptor", m); fd != nil {
+			names, _ := callsIn(fd.Body)
+			lf.def("v1KeyEncryptor"+m+"Calls", "List String", strList(names), ksRel+": SCellKeyEncryptor."+m+" – calls in source order")
+		}
+	}
+	// which KeyContext constructor each client-key accessor of the v1 store uses, and on what
+	const skRel = "keystore/filesystem/server_keystore.go"
+	var ctxRows []string
+	for _, fn := range []string{"GetServerDecryptionPrivateKey", "GetServerDecryptionPrivateKeys", "GenerateDataEncryptionKeys",
+		"GetClientIDSymmetricKeys", "GetClientIDSymmetricKey", "GenerateClientIDSymmetricKey", "GetHMACSecretKey", "GenerateHmacKey"} {
+		fd := funcDecl(skRel, "KeyStore", fn)
+		if fd == nil {
+			continue
+		}
+		names, calls := callsIn(fd.Body)
+		found := false
+		for i, n := range names {
+			if strings.HasPrefix(n, "keystore.New") && strings.HasSuffix(n, "KeyContext") {
+				arg := ""
+				if len(calls[i].Args) == 2 {
+					arg = selPath(calls[i].Args[1])
+				}
+				ctxRows = append(ctxRows, fmt.Sprintf("(%q, %q, %q)", fn, strings.TrimPrefix(n, "keystore."), arg))
+				found = true
+			}
+		}
+		if !found {
+			fail("%s: KeyStore.%s builds no key context", skRel, fn)
+		}
+	}
+	lf.def("v1ClientKeyContexts", "List (String × String × String)", "[\n  "+strings.Join(ctxRows, ",\n  ")+"]",
+		skRel+": (accessor, KeyContext constructor, its second argument) for the per-client secret keys")
+	// ---- v2: ring paths ----
+	v2 := newConstEnv("keystore/v2/keystore/storage_client.go", "keystore/v2/keystore/storage.go", "keystore/v2/keystore/hmac.go", "keystore/v2/keystore/filesystem/keyStoreLoad.go")
+	cs := func(name, cname, src string) {
+		v, ok := v2.vals[cname]
+		if !ok {
+			fail("%s: constant %s not found", src, cname)
+			return
+		}
+		str(name, constantString(v), src+": "+cname)
+	}
+	cs("v2ClientPrefix", "clientPrefix", "keystore/v2/keystore/storage_client.go")
+	cs("v2StorageSuffix", "storageSuffix", "keystore/v2/keystore/storage_client.go")
+	cs("v2StorageSymSuffix", "storageSymmetricSuffix", "keystore/v2/keystore/storage.go")
+	cs("v2HmacSuffix", "hmacSymmetricSuffix", "keystore/v2/keystore/hmac.go")
+	cs("v2KeyringSuffix", "keyringSuffix", "keystore/v2/keystore/filesystem/keyStoreLoad.go")
+	for _, p := range []struct{ rel, fn string }{{"keystore/v2/keystore/storage_client.go", "clientStorageKeyPairPath"}, {"keystore/v2/keystore/storage.go", "clientStorageSymmetricKeyPath"}, {"keystore/v2/keystore/hmac.go", "clientHMACKeyPath"}} {
+		if fd := funcDecl(p.rel, "ServerKeyStore", p.fn); fd != nil {
+			names, calls := callsIn(fd.Body)
+			shape := []string{}
+			if len(names) >= 1 && names[0] == "filepath.Join" {
+				for _, a := range calls[0].Args {
+					if c, ok := a.(*ast.CallExpr); ok {
+						shape = append(shape, selPath(c.Fun)+"("+selPath(c.Args[0])+")")
+					} else {
+						shape = append(shape, selPath(a))
+					}
+				}
+			} else {
+				fail("%s: %s is no longer a filepath.Join", p.rel, p.fn)
+			}
+			lf.def("v2"+strings.ToUpper(p.fn[:1])+p.fn[1:], "List String", strList(shape), p.rel+": "+p.fn+" = filepath.Join of")
+		}
+	}
+	// ---- v2: encryption / signature contexts ----
+	parts := func(rel, recv, fn, name string) {
+		fd := funcDecl(rel, recv, fn)
+		if fd == nil {
+			return
+		}
+		lits, shape := appendParts(fd, rel)
+		for i, l := range lits {
+			str(fmt.Sprintf("%sLit%d", name, i), l, rel+": "+fn)
+		}
+		lf.def(name+"Shape", "List String", strList(shape), rel+": "+fn+" appends, in order")
+	}
+	parts("keystore/v2/keystore/filesystem/keyRing.go", "KeyRing", "keyRingContext", "v2KeyRingContext")
+	parts("keystore/v2/keystore/filesystem/keyStore.go", "KeyStore", "keyStoreContext", "v2KeyStoreContext")
+	parts("keystore/v2/keystore/filesystem/keyStore.go", "KeyStore", "keyRingSignatureContext", "v2RingSignatureContext")
+	for _, p := range []struct{ fn, name string }{{"privateKeyContext", "v2PrivateKeyFormat"}, {"symmetricKeyContext", "v2SymmetricKeyFormat"}} {
+		if fd := funcDecl("keystore/v2/keystore/filesystem/key.go", "KeyRing", p.fn); fd != nil {
+			l := stringLits(fd.Body)
+			if len(l) != 1 || !strings.HasSuffix(l[0], "%d") || strings.Count(l[0], "%") != 1 {
+				fail("keystore/v2/keystore/filesystem/key.go: %s is no longer Sprintf(\"<text>%%d\", seqnum)", p.fn)
+				continue
+			}
+			str(p.name, strings.TrimSuffix(l[0], "%d"), "keystore/v2/keystore/filesystem/key.go: "+p.fn+" = this ++ decimal seqnum")
+		}
+	}
+	for _, m := range []string{"encrypt", "decrypt"} {
+		if fd := funcDecl("keystore/v2/keystore/filesystem/keyStore.go", "KeyStore", m); fd != nil {
+			names, _ := callsIn(fd.Body)
+			lf.def("v2Store"+strings.ToUpper(m[:1])+m[1:]+"Calls", "List String", strList(names), "keystore/v2/keystore/filesystem/keyStore.go: KeyStore."+m+" – calls in source order")
+		}
+	}
+	if f := parseFile("keystore/v2/keystore/crypto/signature.go"); f != nil {
+		env := map[string]string{}
+		for _, d := range f.Decls {
+			if gd, ok := d.(*ast.GenDecl); ok && gd.Tok == token.VAR {
+				for _, s := range gd.Specs {
+					vs := s.(*ast.ValueSpec)
+					if len(vs.Names) == 1 && len(vs.Values) == 1 {
+						if l := stringLits(vs.Values[0]); len(l) == 1 {
+							env[vs.Names[0].Name] = l[0]
+						}
+					}
+				}
+			}
+		}
+		if s, ok := env["separator"]; ok {
+			str("v2SignatureSeparator", s, "keystore/v2/keystore/crypto/signature.go: separator")
+		} else {
+			fail("keystore/v2/keystore/crypto/signature.go: var separator not found")
+		}
+		if fd := funcDecl("keystore/v2/keystore/crypto/signature.go", "SignSha256", "Sign"); fd != nil {
+			var w []string
+			names, calls := callsIn(fd.Body)
+			for i, n := range names {
+				if n == "s.hmac.Write" && len(calls[i].Args) == 1 {
+					w = append(w, selPath(calls[i].Args[0]))
+				}
+			}
+			lf.def("v2SignWrites", "List String", strList(w), "keystore/v2/keystore/crypto/signature.go: SignSha256.Sign feeds the HMAC, in order")
+		}
+	}
+	// ---- token records ----
+	const tkRel = "pseudonymization/tokenizer.go"
+	if f := parseFile(tkRel); f != nil {
+		found := false
+		for _, d := range f.Decls {
+			if gd, ok := d.(*ast.GenDecl); ok && gd.Tok == token.VAR {
+				for _, s := range gd.Specs {
+					vs := s.(*ast.ValueSpec)
+					if len(vs.Names) == 1 && vs.Names[0].Name == "dataIDDelim" && len(vs.Values) == 1 {
+						if l := stringLits(vs.Values[0]); len(l) == 1 {
+							str("tokenDataIDDelim", l[0], tkRel+": dataIDDelim")
+							found = true
+						}
+					}
+				}
+			}
+		}
+		if !found {
+			fail("%s: var dataIDDelim not found", tkRel)
+		}
+	}
+	if fd := funcDecl(tkRel, "pseudoanonymizer", "generateDataID"); fd != nil {
+		w := hashWrites(fd)
+		if len(w) == 8 && strings.HasPrefix(w[4], "lit:") && strings.HasPrefix(w[2], "lit:") {
+			str("tokenDataIDClientTag", strings.TrimPrefix(w[4], "lit:"), tkRel+": generateDataID, tag written before the client id")
+			str("tokenDataIDZoneTag", strings.TrimPrefix(w[2], "lit:"), tkRel+": generateDataID, tag written before the additional context")
+		} else {
+			fail("%s: generateDataID no longer writes delim, data, (zone tag, context | client tag, id), delim, type", tkRel)
+		}
+		lf.def("tokenDataIDWrites", "List String", strList(w), tkRel+": generateDataID – h.Write arguments in source order (the first two after `data` are the zone branch, the next two the client branch)")
+	}
+	for _, p := range []struct{ fn, name string }{{"generateKeyForToken", "tokenKeyPrefix"}, {"generateKeyForHash", "tokenHashKeyPrefix"}} {
+		if fd := funcDecl(tkRel, "pseudoanonymizer", p.fn); fd != nil {
+			l := stringLits(fd.Body)
+			if len(l) != 1 {
+				fail("%s: %s: expected one literal prefix", tkRel, p.fn)
+				continue
+			}
+			str(p.name, l[0], tkRel+": "+p.fn+" = this ++ key")
+		}
+	}
+	if fd := funcDecl("pseudonymization/common/common.go", "", "AggregateTokenContextToBytes"); fd != nil {
+		w := hashWrites(fd)
+		if len(w) == 4 && strings.HasPrefix(w[2], "lit:") {
+			str("tokenContextClientTag", strings.TrimPrefix(w[2], "lit:"), "pseudonymization/common/common.go: AggregateTokenContextToBytes, tag written before the client id")
+		} else {
+			fail("pseudonymization/common/common.go: AggregateTokenContextToBytes no longer writes (zone tag, context | client tag, id)")
+		}
+		lf.def("tokenContextWrites", "List String", strList(w), "pseudonymization/common/common.go: AggregateTokenContextToBytes – h.Write arguments in source order (zone branch, then client branch)")
+	}
+	// ---- search hash ----
+	const hRel = "hmac/hash.go"
+	if f := parseFile(hRel); f != nil {
+		done := false
+		for _, d := range f.Decls {
+			gd, ok := d.(*ast.GenDecl)
+			if !ok || gd.Tok != token.CONST {
+				continue
+			}
+			for i, s := range gd.Specs {
+				vs := s.(*ast.ValueSpec)
+				if len(vs.Names) == 1 && vs.Names[0].Name == "_sha256" && len(vs.Values) == 1 {
+					if c, ok := vs.Values[0].(*ast.CallExpr); ok && len(c.Args) == 1 {
+						if u, ok := evalInt(c.Args[0], i); ok && u >= 0 && u < 256 {
+							lf.def("hashFuncSha256", "Nat", fmt.Sprint(u), hRel+": _sha256 (the byte in front of every search hash)")
+							done = true
+						}
+					}
+				}
+			}
+		}
+		if !done {
+			fail("%s: cannot evaluate _sha256", hRel)
+		}
+	}
+	if fd := funcDecl(hRel, "HashData", "IsEqual"); fd != nil {
+		names, _ := callsIn(fd.Body)
+		lf.def("hashIsEqualCalls", "List String", strList(names), hRel+": HashData.IsEqual – calls in source order")
+	}
+}
+
+func constantString(v interface{ ExactString() string }) string {
+	s, err := strconvUnquote(v.ExactString())
+	if err != nil {
+		return v.ExactString()
+	}
+	return s
+}
+
